@@ -1,6 +1,7 @@
 #include "daemon.h"
 #include "world.h"
 #include "wrap.h"
+#include "sched/sched.h"
 
 #include <fcntl.h>
 #include <signal.h>
@@ -41,7 +42,10 @@ void simTick() {
       d += extra;
     }
   }
-  R.now_ns += d;
+  if (sched::active())
+    sched::sleepFor(d);
+  else
+    R.now_ns += d;
   R.access_idx = 0;
   {
     Bypass b;
